@@ -447,13 +447,19 @@ func isChain(s *Snap) bool {
 // than it owns over all vertices of the ledger (each counted once, live and checkpointed), followed by proposals that
 // make the node judge that tip. The probe must never become confirmed: the snapshot oracle of C01 and the conservation
 // oracle of C02 watch. Every second wallet afterwards spends exactly what it owns, which must be confirmed.
-func (w *World) OverspendProbes(n *Node, d *Driver) {
+func (w *World) OverspendProbes(n *Node, d *Driver) { w.overspendProbes(n, d, false) }
+
+// OverspendProbesOnAnyTips: the same probes on a ledger with several tips, without merging them first (the probe lands
+// on whichever tips the node picks and is judged in the history it really has).
+func (w *World) OverspendProbesOnAnyTips(n *Node, d *Driver) { w.overspendProbes(n, d, true) }
+
+func (w *World) overspendProbes(n *Node, d *Driver, anyTips bool) {
 	if len(w.Trusted) > 0 || n.Abandoned {
 		return
 	}
 	for ui, u := range w.Users {
 		s, err := TakeSnap(n.Book)
-		for k := 0; k < 4 && err == nil && len(s.Leaves) != 1; k++ {
+		for k := 0; k < 4 && err == nil && len(s.Leaves) != 1 && !anyTips; k++ {
 			// merge the tips first (a proposal takes two of them)
 			m := w.NewTrx(w.Users[0], w.Users[1].Addr, spice.Melange{}, []byte("merge before a probe"))
 			if mv, perr := w.Propose(n, &m, "merge before a probe"); perr == nil && d != nil {
@@ -461,14 +467,14 @@ func (w *World) OverspendProbes(n *Node, d *Driver) {
 			}
 			s, err = TakeSnap(n.Book)
 		}
-		if err != nil || len(s.Leaves) != 1 {
+		if err != nil || (len(s.Leaves) != 1 && !anyTips) {
 			w.Res.Count("overspend_probes_skipped_ledger_not_single_tipped", 1)
 			continue
 		}
 		// (with vertices parked the retry ticker may change the ledger under the probe: the probe is made all the same and
 		// judged by the per-confirmation oracle, which reads the history the vertex really has; the direct verdicts below
 		// are given only on a ledger nothing else can move)
-		quietLedger := !n.BackgroundMayAct(s)
+		quietLedger := !n.BackgroundMayAct(s) && len(s.Leaves) == 1
 		if u.Addr == w.GenIss || n.Tainted[u.Addr] {
 			continue
 		}
@@ -517,7 +523,7 @@ func (w *World) OverspendProbes(n *Node, d *Driver) {
 				}
 			}
 		}
-		if ui%2 == 1 && own.Sign() > 0 {
+		if ui%2 == 1 && own.Sign() > 0 && len(s.Leaves) == 1 {
 			e := w.NewTrx(u, to.Addr, FromVal(own), nil)
 			ev, eerr := w.Propose(n, &e, fmt.Sprintf("%s spends exactly what it owns (%s)", u.Name, own))
 			if eerr == nil && d != nil {
